@@ -48,6 +48,12 @@ CLAIMS = {
  "C12": ("integrity-before-trust rule over every license.Cipher implementation: search of DecryptKey's reachable code for an authenticity primitive; all three ciphers lack one (three recorded known findings, design-level); the remaining tamper evidence (contract.Validate conjuncts and its presence on every Authorize success path) is checked; a new unauthenticated cipher or a weakened Validate is a new violation; acceptance probabilities are not decided",
          "list of authenticity primitives; go/ssa; in-scope call graph",
          "static analysis: call-graph reachability of authenticity primitives, SSA guard cut-sets, comparison normal form"),
+ "C15": ("structural necessary conditions: no error of the badger write API is dropped; Store acknowledges exactly the result of one synchronous DB.Update in which every entry is set (no asynchronous commit, no goroutine); Configure opens the configured directory on disk and nothing on the configure path deletes/truncates files; Close chain; entry key/value/expiry provenance; badger's own recovery is not decided",
+         "badger DB.Update commits synchronously (library contract); go/ssa",
+         "static analysis: error-discipline rule, return-value provenance, effect scan over the in-scope call graph, must-pass-through"),
+ "C18": ("structural necessary conditions: exactly one notifier call per admitted subscribe/unsubscribe (after the trie insert), broker notifier maps to the right presence event for direct subscribers; presence.Notify is a single blocking send and the queue has one consumer publishing synchronously (order preservation); status lookup is the unfiltered trie lookup reporting id/username of connections; changes enable/cancel go through PubSub with the same presence-ssid event; the notification stream as a function of history is not decided",
+         "Go channel FIFO; go/ssa",
+         "static analysis: SSA guard cut-sets two-sided, effect scan (go/select/send), single-consumer count over the call graph, argument provenance"),
 }
 
 NOT_YET = "no sound structural rule implemented yet in this static-analysis framework (see DESIGN.md §4 for the clauses planned); behavioural clauses quantify over runtime values"
